@@ -23,6 +23,25 @@ impl RngCore for SymRng {
     }
 }
 
+/// An rng whose every word is one of the two extremes, chosen symbolically: every Bernoulli coin can
+/// still come up either way (0 < p, MAX >= p) while the latency sample degenerates to a constant, so
+/// harnesses that are about the coins do not pay for bit-blasting IEEE-754 arithmetic (the latency
+/// window for ALL samples is the subject of `c14_sampled_latency_is_clamped_into_window`).
+pub(crate) struct CoinRng;
+impl RngCore for CoinRng {
+    fn next_u32(&mut self) -> u32 {
+        if kani::any() { 0 } else { u32::MAX }
+    }
+    fn next_u64(&mut self) -> u64 {
+        if kani::any() { 0 } else { u64::MAX }
+    }
+    fn fill_bytes(&mut self, d: &mut [u8]) {
+        for b in d {
+            *b = if kani::any() { 0 } else { 255 };
+        }
+    }
+}
+
 /// tokio (model) Instant at `secs`+`nanos` since the model's origin; no clock is read.
 pub(crate) fn instant(secs: i64, nanos: u32) -> Instant {
     Instant::model_at(Duration::new(secs as u64, nanos))
@@ -143,16 +162,16 @@ fn is_a_to_b(s: &Sent) -> bool {
 //    in that direction is neither queued nor matured - whatever the coins (any fail/repair rate);
 //  * with fail_rate = 0 a message on a Healthy direction is queued exactly once with a deliver-after
 //    instant in [now+min, now+max] (latency window), nothing else changes.
-fn send_step(fail_rate: f64, repair_rate: f64) -> (bool, bool, bool) {
+fn send_step(ab: State, ba: State, a_to_b: bool, fail_rate: f64, repair_rate: f64) -> (bool, bool, bool) {
     let now = instant(1000, 0);
     let mut link = Link::new(now);
-    link.state_a_b = any_state();
-    link.state_b_a = any_state();
-    kani::assume(!matches!(link.state_a_b, State::Hold) && !matches!(link.state_b_a, State::Hold));
+    // the state pair and the direction of the send are concrete per instance (symbolic: > 8 GB);
+    // every coin of the random fail/repair process is symbolic
+    link.state_a_b = ab;
+    link.state_b_a = ba;
     let (pre_ab, pre_ba) = (link.state_a_b, link.state_b_a);
     let cfg = loss_cfg(fail_rate, repair_rate);
-    let mut rng = SymRng;
-    let a_to_b: bool = kani::any();
+    let mut rng = CoinRng;
     let (s, d) = if a_to_b { (IP_A, IP_B) } else { (IP_B, IP_A) };
     let r = link.enqueue_message(&cfg, &mut rng, sa(s, 7), sa(d, 9), udp_msg());
     assert!(r.is_ok());
@@ -183,34 +202,78 @@ fn send_step(fail_rate: f64, repair_rate: f64) -> (bool, bool, bool) {
             }
         }
     }
+    let changed = is_healthy(pre_ab) != is_healthy(link.state_a_b) || is_healthy(pre_ba) != is_healthy(link.state_b_a);
     std::mem::forget(link);
-    (is_explicit(pre_dir), queued == 1, matured == 1)
+    (changed, queued == 1, matured == 1)
 }
-// @verif id=C03,C14 tier=quick role=send_step timeout=900 desc=fail_rate=0
+// @verif id=C03 tier=quick role=send_step timeout=900 desc=(Explicit,Healthy),send-a->b,rates=1/1
 crate::verif_proof! { unwind = 4;
 #[kani::stub(std::collections::VecDeque::remove, crate::verif_common::vecdeque_remove_stub)]
-fn c03_send_step_no_random_failures() {
-    let (explicit, queued, matured) = send_step(0.0, 1.0);
-    kani::cover!(explicit, "send across an explicit partition");
-    kani::cover!(queued, "message in flight");
-    kani::cover!(matured, "zero-latency message matured at once");
+fn c03_send_across_explicit_oneway_partition_is_dropped() {
+    let (_, queued, matured) = send_step(State::ExplicitPartition, State::Healthy, true, 1.0, 1.0);
+    assert!(!queued && !matured);
+    kani::cover!(!queued, "dropped");
 }
 }
-// @verif id=C03 tier=quick role=send_step timeout=900 desc=fail_rate=0.5,repair_rate=0.5
+// @verif id=C03 tier=quick role=send_step timeout=900 desc=(Explicit,Healthy),send-b->a,rates=1/1
 crate::verif_proof! { unwind = 4;
 #[kani::stub(std::collections::VecDeque::remove, crate::verif_common::vecdeque_remove_stub)]
-fn c03_send_step_random_failures_half() {
-    let (explicit, queued, _) = send_step(0.5, 0.5);
-    kani::cover!(explicit, "send across an explicit partition");
-    kani::cover!(queued, "message in flight");
+fn c03_reverse_traffic_with_random_failures_keeps_explicit_partition() {
+    let (changed, queued, _) = send_step(State::ExplicitPartition, State::Healthy, false, 1.0, 1.0);
+    assert!(changed && !queued);
+    kani::cover!(changed, "the healthy direction failed at random");
 }
 }
-// @verif id=C03 tier=thorough role=send_step timeout=900 desc=fail_rate=1,repair_rate=1
+// @verif id=C03 tier=thorough role=send_step timeout=2400 mem=16 desc=(Explicit,Healthy),send-b->a,rates=0.5/0.5(symbolic-coin)
 crate::verif_proof! { unwind = 4;
 #[kani::stub(std::collections::VecDeque::remove, crate::verif_common::vecdeque_remove_stub)]
-fn c03_send_step_random_failures_always() {
-    let (explicit, _, _) = send_step(1.0, 1.0);
-    kani::cover!(explicit, "send across an explicit partition");
+fn c03_reverse_traffic_with_symbolic_coin_keeps_explicit_partition() {
+    let (changed, queued, _) = send_step(State::ExplicitPartition, State::Healthy, false, 0.5, 0.5);
+    kani::cover!(changed, "the healthy direction failed at random");
+    kani::cover!(queued, "reverse direction still delivers");
+}
+}
+// @verif id=C03 tier=quick role=send_step timeout=900 desc=(RandPartition,Explicit),send-a->b,rates=1/1(random-repair)
+crate::verif_proof! { unwind = 4;
+#[kani::stub(std::collections::VecDeque::remove, crate::verif_common::vecdeque_remove_stub)]
+fn c03_random_repair_does_not_heal_explicit_partition() {
+    let (changed, _, _) = send_step(State::RandPartition, State::ExplicitPartition, true, 1.0, 1.0);
+    kani::cover!(changed, "random repair healed the random partition");
+}
+}
+// @verif id=C03,C14 tier=quick role=send_step timeout=900 desc=(Healthy,Healthy),send-a->b,fail_rate=0
+crate::verif_proof! { unwind = 4;
+#[kani::stub(std::collections::VecDeque::remove, crate::verif_common::vecdeque_remove_stub)]
+fn c03_healthy_send_is_in_flight_exactly_once() {
+    let (changed, queued, matured) = send_step(State::Healthy, State::Healthy, true, 0.0, 1.0);
+    assert!(!changed && (queued || matured));
+    kani::cover!(queued || matured, "message in flight");
+}
+}
+// @verif id=C03 tier=thorough role=send_step timeout=900 desc=(Healthy,Explicit),send-b->a,rates=1/0
+crate::verif_proof! { unwind = 4;
+#[kani::stub(std::collections::VecDeque::remove, crate::verif_common::vecdeque_remove_stub)]
+fn c03_send_across_explicit_b_to_a_is_dropped() {
+    let (_, queued, matured) = send_step(State::Healthy, State::ExplicitPartition, false, 1.0, 0.0);
+    assert!(!queued && !matured);
+    kani::cover!(!queued, "dropped");
+}
+}
+// @verif id=C03 tier=thorough role=send_step timeout=900 desc=(Explicit,RandPartition),send-b->a,rates=1/1
+crate::verif_proof! { unwind = 4;
+#[kani::stub(std::collections::VecDeque::remove, crate::verif_common::vecdeque_remove_stub)]
+fn c03_random_repair_of_reverse_direction_keeps_explicit() {
+    let (changed, _, _) = send_step(State::ExplicitPartition, State::RandPartition, false, 1.0, 1.0);
+    kani::cover!(changed, "random repair");
+}
+}
+// @verif id=C03 tier=thorough role=send_step timeout=900 desc=(Explicit,Explicit),send-a->b,rates=1/1
+crate::verif_proof! { unwind = 4;
+#[kani::stub(std::collections::VecDeque::remove, crate::verif_common::vecdeque_remove_stub)]
+fn c03_full_partition_ignores_random_process() {
+    let (changed, queued, _) = send_step(State::ExplicitPartition, State::ExplicitPartition, true, 1.0, 1.0);
+    assert!(!changed && !queued);
+    kani::cover!(!changed, "unchanged");
 }
 }
 
@@ -219,15 +282,19 @@ fn c03_send_step_random_failures_always() {
 // C03-S3: explicit repair restores exactly the named direction(s).
 // Queue: two in-flight messages with symbolic directions. Operation: symbolic choice of
 // partition / partition_oneway(a,b) / partition_oneway(b,a) / repair / repair_oneway(a,b) / (b,a).
-fn partition_op(op: u8) -> (bool, bool, bool) {
+fn partition_op(op: u8, dirs: Option<(bool, bool)>) -> (bool, bool, bool) {
     let now = instant(1000, 0);
     let mut link = Link::new(now);
     link.state_a_b = any_state();
     link.state_b_a = any_state();
     kani::assume(!matches!(link.state_a_b, State::Hold) && !matches!(link.state_b_a, State::Hold));
     let (pre_ab, pre_ba) = (link.state_a_b, link.state_b_a);
-    let d0: bool = kani::any();
-    let d1: bool = kani::any();
+    // `retain` with a symbolic keep/drop pattern compacts the queue with byte-wise swaps (8 M SAT
+    // variables, out of memory): the one-way instances fix the directions of the two queued messages
+    let (d0, d1): (bool, bool) = match dirs {
+        Some(d) => d,
+        None => (kani::any(), kani::any()),
+    };
     push_sent(&mut link, 1, d0, DeliveryStatus::DeliverAfter(now + Duration::from_millis(5)));
     push_sent(&mut link, 2, d1, DeliveryStatus::DeliverAfter(now + Duration::from_millis(6)));
     match op {
@@ -264,42 +331,42 @@ fn partition_op(op: u8) -> (bool, bool, bool) {
 // @verif id=C03 tier=quick role=partition_ops timeout=900 desc=partition_oneway(a,b)
 crate::verif_proof! { unwind = 5;
 fn c03_partition_oneway_drops_inflight_of_that_direction() {
-    let (d0, d1, _) = partition_op(1);
+    let (d0, d1, _) = partition_op(1, Some((true, false)));
     kani::cover!(d0 && !d1, "one-way partition drops one of two in-flight messages");
 }
 }
 // @verif id=C03 tier=quick role=partition_ops timeout=900 desc=partition
 crate::verif_proof! { unwind = 5;
 fn c03_partition_drops_all_inflight() {
-    let (d0, d1, _) = partition_op(0);
+    let (d0, d1, _) = partition_op(0, None);
     kani::cover!(d0 != d1, "messages in both directions dropped");
 }
 }
 // @verif id=C03 tier=quick role=partition_ops timeout=900 desc=repair_oneway(b,a)
 crate::verif_proof! { unwind = 5;
 fn c03_repair_oneway_leaves_other_direction() {
-    let (_, _, ex_ab) = partition_op(5);
+    let (_, _, ex_ab) = partition_op(5, None);
     kani::cover!(ex_ab, "repairing b->a leaves a->b partitioned");
 }
 }
 // @verif id=C03 tier=thorough role=partition_ops timeout=900 desc=partition_oneway(b,a)
 crate::verif_proof! { unwind = 5;
 fn c03_partition_oneway_reverse() {
-    let (d0, d1, _) = partition_op(2);
+    let (d0, d1, _) = partition_op(2, Some((false, true)));
     kani::cover!(!d0 && d1, "b->a message kept out");
 }
 }
 // @verif id=C03 tier=thorough role=partition_ops timeout=900 desc=repair
 crate::verif_proof! { unwind = 5;
 fn c03_repair_restores_both() {
-    let (_, _, ex_ab) = partition_op(3);
+    let (_, _, ex_ab) = partition_op(3, None);
     kani::cover!(ex_ab, "explicit partition repaired");
 }
 }
 // @verif id=C03 tier=thorough role=partition_ops timeout=900 desc=repair_oneway(a,b)
 crate::verif_proof! { unwind = 5;
 fn c03_repair_oneway_ab() {
-    let (_, _, ex_ab) = partition_op(4);
+    let (_, _, ex_ab) = partition_op(4, None);
     kani::cover!(ex_ab, "a->b repaired");
 }
 }
